@@ -323,7 +323,27 @@ func VerifC16Replace() {
 		}
 	}
 	b := map[string]any{"s": s, "x": needle, "r": repl}
-	switch nd.Choice(4) {
+	switch nd.Choice(5) {
+	case 4:
+		// longer needles: occurrences are found left to right in the receiver as it is; what closes up
+		// around a removed occurrence is not searched again, and overlapping occurrences count once
+		c := []struct{ s, x, rm, rmFirst, rep string }{
+			{"aabb", "ab", "ab", "ab", "aXYb"}, {"<<>>&", "<>", "<>&", "<>&", "<XY>&"}, {"aaa", "aa", "a", "a", "XYa"},
+			{"abab", "ab", "", "ab", "XYXY"}, {"xabcabcy", "abc", "xy", "xabcy", "xXYXYy"}, {"h\u00e9h\u00e9", "\u00e9", "hh", "hh\u00e9", "hXYhXY"},
+		}[nd.Choice(6)]
+		cb := map[string]any{"s": c.s, "x": c.x, "r": repl}
+		if r, ok := c16EvalStr("s | remove: x", cb, "remove-long"); ok {
+			nd.Assert(r == c.rm, "remove-all-long-needle")
+		}
+		if r, ok := c16EvalStr("s | remove_first: x", cb, "remove-first-long"); ok {
+			nd.Assert(r == c.rmFirst, "remove-first-long-needle")
+		}
+		if r, ok := c16EvalStr("s | replace: x, r", cb, "replace-long"); ok {
+			nd.Assert(r == c.rep, "replace-all-long-needle")
+		}
+		if r, ok := c16EvalStr("s | replace: x, ''", cb, "replace-empty-long"); ok {
+			nd.Assert(r == c.rm, "remove-is-replace-with-nothing")
+		}
 	case 0:
 		if r, ok := c16EvalStr("s | replace: x, r", b, "replace"); ok {
 			nd.Assert(r == all, "replace-all")
